@@ -48,6 +48,7 @@ def run(repo: Repo, chk: Check) -> None:
     guards(repo, chk)
     nest(repo, chk)
     seed_extent(repo, chk)
+    lccb_static(repo, chk)
 
 
 # --------------------------------------------------------------------------- helpers
@@ -756,3 +757,48 @@ def seed_extent(repo: Repo, chk: Check) -> None:
                    facts=[ast.unparse(cone)[:400]])
     if n == 0:
         raise AnalysisError(f"{f.where}: no selected-stride lookup `{bp}[<key>]` found")
+
+
+# --------------------------------------------------------------------------- the common contiguous block ends at a dynamic stride
+def lccb_static(repo: Repo, chk: Check) -> None:
+    chk.rule(
+        "C05.lccb-static",
+        "largest_common_contiguous_block: once a stride with a dynamic step or bound has joined the block the search ends (its own docstring: "
+        "'stops searching when it hits a dynamic Stride'); setting the running extent to None and searching on makes every further "
+        "dynamic-step stride count as contiguous, whatever its run-time value",
+        floor=1,
+    )
+    f = repo.func("snaxc/ir/tsl/tiled_strided_layout.py", "TiledStridedLayout.largest_common_contiguous_block")
+    chk.analysed(f.key)
+    cur = None
+    for n in ast.walk(f.node):
+        m = norm.any_match(["$x.step == $c", "$c == $x.step"], n) if isinstance(n, ast.Compare) else None
+        if m is not None and isinstance(m["c"], ast.Name):
+            cur = m["c"].id
+    if cur is None:
+        raise AnalysisError(f"{f.where}: comparison of a stride's step with the running extent not found")
+    loops = [n for n in ast.walk(f.node) if isinstance(n, (ast.While, ast.For))]
+
+    def blocks(node):
+        for fld in ("body", "orelse", "finalbody"):
+            b = getattr(node, fld, None)
+            if isinstance(b, list) and b and isinstance(b[0], ast.stmt):
+                yield b
+                for st in b:
+                    yield from blocks(st)
+
+    n_sites = 0
+    bad = []
+    for lp in loops:
+        for b in blocks(lp):
+            for i, st in enumerate(b):
+                if isinstance(st, ast.Assign) and any(isinstance(t, ast.Name) and t.id == cur for t in st.targets) and isinstance(st.value, ast.Constant) and st.value.value is None:
+                    n_sites += 1
+                    rest = b[i + 1:]
+                    if not any(isinstance(x, (ast.Return, ast.Break, ast.Raise)) for x in rest):
+                        bad.append(st.lineno)
+    key = "snaxc/ir/tsl/tiled_strided_layout.py:largest_common_contiguous_block:dynamic-extent"
+    chk.result(not bad, "C05.lccb-static", key, f"{f.module.relpath}:{bad[0] if bad else f.node.lineno}",
+               f"the running extent `{cur}` never becomes None while the search continues ({n_sites} site(s))",
+               f"`{cur} = None` at line(s) {bad} and the search continues: strides with dynamic steps then compare equal to the running extent and join the "
+               "'contiguous' block (memref<?x?xi32, strided<[?, 1]>> on both sides is lowered to one 1-D transfer although the run-time row pitches may differ)")
